@@ -40,10 +40,41 @@ class C11(PureCheck):
         for f in pool:
             for c in (2, 3, 4, 5):
                 yield {"op": "wsplit", "f": f, "cols": c}
+        # two lazy line iterators alive at once, advanced in turn (two columns laid out side by side, or a line
+        # re-wrapped inside the loop over the outer lines): with another value, with a value sharing its runs, with itself
+        long1 = [[[97, 98, 99, 97, 98, 99, 97, 98], fmtlib.RED], [[98, 65317, 97, 99], fmtlib.PLAIN]]
+        long2 = [[[99] * 5, fmtlib.PLAIN], [[65317, 97, 97, 98], fmtlib.RED], [[98, 98], fmtlib.PLAIN]]
+        for f, g, share in ((long1, long2, 0), (long2, long1, 0), (long1, long1, 1), (long1, long1, 2), (long2, long2, 2)):
+            for c1 in (2, 3, 4):
+                for c2 in (3, 5):
+                    yield {"op": "wsplit", "f": f, "cols": c1, "with": g, "wcols": c2, "share": share}
 
     def execute(self, inp):
         ev = dict(inp)
         f = enc.build_fmtstr(inp["f"])
+        if "with" in inp:
+            # share 0: an unrelated value; 1: a value built from f's own run objects; 2: f itself
+            g = f if inp["share"] == 2 else (f[0:len(f)] + "!" if inp["share"] == 1 else enc.build_fmtstr(inp["with"]))
+
+            def interleaved():
+                it1, it2 = iter(f.width_aware_splitlines(inp["cols"])), iter(g.width_aware_splitlines(inp["wcols"]))
+                out = []
+                done1 = done2 = False
+                while not (done1 and done2):
+                    if not done1:
+                        try:
+                            out.append(next(it1))
+                        except StopIteration:
+                            done1 = True
+                    if not done2:
+                        try:
+                            next(it2)
+                        except StopIteration:
+                            done2 = True
+                return out
+            ev["res"] = fmtlib.enc_list_res(interleaved)
+            del ev["with"]
+            return ev
         ev["res"] = fmtlib.enc_list_res(lambda: f.width_aware_splitlines(inp["cols"]))
         return ev
 
